@@ -110,6 +110,9 @@ func (c *Ctx) collectOrderSites(pkgs []string) []orderSite {
 							if len(s.Args) == 1 {
 								if fl, ok := unparen(s.Args[0]).(*ast.FuncLit); ok {
 									site.body = fl.Body
+									if ps := fl.Type.Params; ps != nil && len(ps.List) > 0 && len(ps.List[0].Names) > 0 {
+										site.rangeKey = info.Defs[ps.List[0].Names[0]] // each key is visited once
+									}
 								}
 							}
 							out = append(out, site)
@@ -341,6 +344,7 @@ func (c *Ctx) ruleOrder(rule string, pkgs []string, o orderOpts) {
 		if s.keysObj != nil {
 			collected[s.keysObj] = s.node
 		}
+		noteUniqueKeyFields(info, s.body, s.rangeKey)
 		ok, bad := commutativeBody(info, s.body, collected)
 		if !ok {
 			// (e) the offending statement is `return <error>`-only?
@@ -362,6 +366,20 @@ func (c *Ctx) ruleOrder(rule string, pkgs []string, o orderOpts) {
 		}
 		if !allSorted {
 			R.Bad(rule, name, pos, "elements are collected into `"+unsorted+"` in map order and read without an intervening sort")
+			continue
+		}
+		partial := ""
+		for obj := range collected {
+			if why, ok := partialCmp[obj]; ok {
+				partial = "`" + obj.Name() + "`: " + why
+			}
+		}
+		if partial != "" {
+			if why, ok := o.Exempt[s.br.Name+" #"+itoa(perFn[s.br.Name])+" comparator"]; ok {
+				R.Exempt(rule, name, pos, why)
+			} else {
+				R.Bad(rule, name, pos, "elements collected in map order are sorted by a comparator that looks only at part of each element ("+partial+"): elements that tie under it keep their map-iteration order, so the result is not a function of the content")
+			}
 			continue
 		}
 		if len(collected) > 0 {
@@ -492,6 +510,9 @@ func sortedAfter(info *types.Info, g *FCFG, site ast.Node, obj types.Object) boo
 			}
 			if len(call.Args) >= 1 && usesObj(info, call.Args[0], obj) {
 				found = true
+				if why := partialKeyComparator(info, call, obj); why != "" {
+					partialCmp[obj] = why
+				}
 			}
 			return true
 		})
@@ -646,4 +667,160 @@ func isSelfAppend(info *types.Info, n ast.Node, obj types.Object) bool {
 		}
 	}
 	return true
+}
+
+// partialCmp records, per collected slice, why its sort comparator is not a
+// total order on the element type (filled by sortedAfter).
+var partialCmp = map[types.Object]string{}
+
+// partialKeyComparator inspects sort.Slice/SliceStable(xs, func(i, j int) bool {...}):
+// if every use of xs[i]/xs[j] in the comparator is a field selection or a
+// constant index, and the selected fields/indices are a proper subset of the
+// element's fields/indices, distinct elements can tie. Comparators that use a
+// whole element, call methods on it or delegate to another function are not
+// judged here.
+func partialKeyComparator(info *types.Info, call *ast.CallExpr, obj types.Object) string {
+	f := calleeFunc(info, call)
+	if f == nil || (f.Name() != "Slice" && f.Name() != "SliceStable") || len(call.Args) != 2 {
+		return ""
+	}
+	fl, ok := unparen(call.Args[1]).(*ast.FuncLit)
+	if !ok {
+		return ""
+	}
+	et := info.TypeOf(call.Args[0])
+	sl, ok := et.Underlying().(*types.Slice)
+	if !ok {
+		return ""
+	}
+	elem := sl.Elem()
+	if pt, ok := elem.Underlying().(*types.Pointer); ok {
+		elem = pt.Elem()
+	}
+	used := map[string]bool{}
+	opaque := false
+	var stack []ast.Node
+	ast.Inspect(fl.Body, func(n ast.Node) bool {
+		if n == nil {
+			stack = stack[:len(stack)-1]
+			return false
+		}
+		stack = append(stack, n)
+		ie, ok := n.(*ast.IndexExpr)
+		if !ok || len(stack) < 2 {
+			return true
+		}
+		if id, isID := unparen(ie.X).(*ast.Ident); !isID || objOf(info, id) != obj {
+			return true
+		}
+		// xs[k]: what is done with it?
+		switch par := stack[len(stack)-2].(type) {
+		case *ast.SelectorExpr:
+			if sel := info.Selections[par]; sel != nil && sel.Kind() == types.FieldVal && par.X == ast.Expr(ie) {
+				used[par.Sel.Name] = true
+				return true
+			}
+			opaque = true
+		case *ast.IndexExpr:
+			if par.X == ast.Expr(ie) {
+				if v, ok := constInt(info, par.Index); ok {
+					used["["+itoa(int(v))+"]"] = true
+					return true
+				}
+			}
+			opaque = true
+		default:
+			opaque = true
+		}
+		return true
+	})
+	if opaque || len(used) == 0 {
+		return ""
+	}
+	for f := range used {
+		if uniqueKeyFields[obj][f] {
+			return "" // compares the unique iteration key: no two collected elements tie
+		}
+	}
+	switch t := elem.Underlying().(type) {
+	case *types.Struct:
+		var missing []string
+		for i := 0; i < t.NumFields(); i++ {
+			if !used[t.Field(i).Name()] {
+				missing = append(missing, t.Field(i).Name())
+			}
+		}
+		if len(missing) > 0 {
+			return "compares " + strings.Join(sortedSet(used), ",") + " but not " + strings.Join(missing, ",")
+		}
+	case *types.Array:
+		var missing []string
+		for i := int64(0); i < t.Len(); i++ {
+			if !used["["+itoa(int(i))+"]"] {
+				missing = append(missing, "["+itoa(int(i))+"]")
+			}
+		}
+		if len(missing) > 0 {
+			return "compares " + strings.Join(sortedSet(used), ",") + " but not " + strings.Join(missing, ",")
+		}
+	}
+	return ""
+}
+
+// uniqueKeyFields[obj][field]: elements appended to obj inside an unordered
+// iteration carry, in this field, the iteration key itself (map range key or
+// first parameter of the Range callback), which is unique per iteration.
+var uniqueKeyFields = map[types.Object]map[string]bool{}
+
+func noteUniqueKeyFields(info *types.Info, body ast.Node, keyObj types.Object) {
+	if keyObj == nil || body == nil {
+		return
+	}
+	walk(body, func(n ast.Node) bool {
+		as, ok := n.(*ast.AssignStmt)
+		if !ok || len(as.Lhs) != 1 || len(as.Rhs) != 1 {
+			return true
+		}
+		call, ok := unparen(as.Rhs[0]).(*ast.CallExpr)
+		if !ok || len(call.Args) < 2 {
+			return true
+		}
+		if id, ok := call.Fun.(*ast.Ident); !ok || id.Name != "append" {
+			return true
+		}
+		dst := objOf(info, as.Lhs[0])
+		if dst == nil {
+			return true
+		}
+		for _, a := range call.Args[1:] {
+			cl, ok := unparen(a).(*ast.CompositeLit)
+			if !ok {
+				continue
+			}
+			var st *types.Struct
+			if t := info.TypeOf(cl); t != nil {
+				st, _ = t.Underlying().(*types.Struct)
+			}
+			for i, el := range cl.Elts {
+				name, val := "", el
+				if kv, ok := el.(*ast.KeyValueExpr); ok {
+					if kid, ok := kv.Key.(*ast.Ident); ok {
+						name = kid.Name
+					}
+					val = kv.Value
+				} else if st != nil && i < st.NumFields() {
+					name = st.Field(i).Name()
+				} else {
+					name = "[" + itoa(i) + "]"
+				}
+				if id, ok := unparen(val).(*ast.Ident); ok && objOf(info, id) == keyObj {
+					if uniqueKeyFields[dst] == nil {
+						uniqueKeyFields[dst] = map[string]bool{}
+					}
+					uniqueKeyFields[dst][name] = true
+				}
+			}
+		}
+		return true
+	})
 }
